@@ -272,8 +272,8 @@ def _ctors(facts, c):
         elif ins == ["alloc::vec::Vec<%s>" % fl]:
             n += 1
             t = _Tally(c, "contract:%s" % b["def"], _where(b), "Array::from(values)")
-            for cnt in (1, 2, 5):
-                t.point(SV.run(facts, b, [SV.FVec(cnt)]), ("dims", [cnt]), "%d values" % cnt)
+            for cnt in (0, 1, 2, 5):
+                t.point(SV.run(facts, b, [SV.FVec(cnt)]), ("dims", [cnt]) if cnt else ("refuse", "no values: a zero dimension"), "%d values" % cnt)
             t.close()
         elif ins == ["alloc::vec::Vec<%s>" % ARRAY]:
             n += 1
